@@ -190,18 +190,8 @@ def oracle_events(o, program, refres, n_mgrs):
         per.setdefault(e['mgr'], []).append((e['hook'], e['node'], repr(e.get('error')), id(e.get('result'))))
     if len(per) != n_mgrs:
         out.append(('manager-missed-events', f'{sorted(per)} of {n_mgrs} managers saw events'))
-    if len(per) > 1:
-        # managers may see concurrent emissions in different global orders; per node the sequences must agree
-        def per_node(m):
-            d = {}
-            for e in evs:
-                if e['mgr'] == m:
-                    d.setdefault(e['node'], []).append((e['hook'], repr(e.get('error'))))
-            return d
-        ms = sorted(per)
-        for m in ms[1:]:
-            if per_node(m) != per_node(ms[0]):
-                out.append(('managers-disagree', f'manager {m} and manager {ms[0]} observed different per-node histories'))
+    # managers are called one after another for every emission; when the run ends while an earlier manager is
+    # still inside its callback, later managers never see that event: no cross-manager agreement is asserted
     for mgr in sorted(per):
         out += _events_one_manager(o, [e for e in evs if e['mgr'] == mgr], comp)
     return out
@@ -264,6 +254,16 @@ def _events_one_manager(o, ev0, comp):
                     out.append(('missing-node-complete', f'{nid}: start without complete in a successful run'))
                 continue
             forced_default = not mine and any(x['start']['seq'] < d['seq'] < hi for d in defaults.get(nid, []))
+            finished = [b for b in mine if b.get('outcome') is not None]
+            if len(finished) < len(mine):
+                # the run ended while an attempt was in flight: that attempt has no complete
+                if len(comps) != len(finished):
+                    out.append(('complete-count', f'{nid}: {len(finished)} finished attempts but {len(comps)} '
+                                                  f'on_node_complete'))
+                for c in comps:
+                    if c.get('error') is None:
+                        out.append(('intermediate-complete-without-error', f'{nid}'))
+                continue
             if len(comps) != max(1, len(mine)) and not forced_default:
                 out.append(('complete-count', f'{nid}: {len(mine)} attempts but {len(comps)} on_node_complete'))
             for c in comps[:-1]:
